@@ -438,9 +438,32 @@ class MarketRun:
                 lim.append(o.price)
 
     # -- state comparison after every operation
+    def reconcile(self) -> None:
+        """C01-C03 speak about the orders that ARE in the book; which orders those are (lifetime, cancellation, accounting) is
+        C04's and C08's subject.  When neither of those two is being checked, the model's membership and volumes follow the
+        real book, so that a lifetime defect does not masquerade as a priority or matching defect."""
+        real = {id(x) for x in self.m.buy_order_book.priority_queue} | {id(x) for x in self.m.sell_order_book.priority_queue}
+        for o, mo in self.live:
+            in_real = id(o) in real
+            in_model = mo in self.M.book[mo.is_buy]
+            if in_real and not in_model and o.volume > 0:
+                mo.vol = o.volume
+                mo.state = "rest"
+                self.M.book[mo.is_buy].append(mo)
+                self.flag("reconciled")
+            elif in_model and not in_real:
+                self.M.book[mo.is_buy].remove(mo)
+                mo.state = "gone"
+                self.flag("reconciled")
+            elif in_model and in_real and mo.vol != o.volume and o.volume > 0:
+                mo.vol = o.volume
+                self.flag("reconciled")
+
     def compare(self, where: str) -> None:
         m, M = self.m, self.M
         O = self.oracles
+        if not ({"C04", "C08"} & O):
+            self.reconcile()
         if "C02" in O or "C08" in O:
             for side, book in ((True, m.buy_order_book), (False, m.sell_order_book)):
                 best = book.get_best_order()
